@@ -412,8 +412,7 @@ def word_kinds(fx):
                     v = M.const_str(a)
                     if v is not None:
                         strs.add(v)
-        if "Identifier" not in made:
-            continue
+        # (the table may be a function of its own - `keyword_kind(name) -> Option<TokenKind>` - that never builds Identifier itself)
         words = {v for v in made if v and v.lower() in strs}
         if len(words) > len(best):
             best, scanner = words, f
